@@ -1065,6 +1065,12 @@ def c05_script(i, c, cfgs):
         acts += [{"k": "End"}, {"k": "Begin", "dt": 1}, {"k": "End"}, {"k": "Begin", "dt": 1}, {"k": "End"}, {"k": "Begin", "dt": 200}]
         acts += claims({"t": "ToHub", "n": 3, "tok": hubtok, "amt": "40", "snd": "e7", "rcv": "a1", "eh": 5000, "txh": "x3"})
         acts += [{"k": "End"}, {"k": "Begin", "dt": 1}, {"k": "End"}, {"k": "Begin", "dt": 1}]
+    elif t == "OPrice":
+        # the largest value a claim can carry (316 bits with 18 decimals), the smallest positive one, and 1
+        val = {"one": "1", "maxdec": "13" + "0" * 76, "tiny": "0.000000000000000001"}[c["val"]]
+        pr = {k: val for k in ("eth", "ethereum/gas", "bnb", "bsc/gas", "hub", "usd")}
+        acts += [{"k": "Price", "by": v, "ep": 1, "pr": pr} for v in ("v1", "v2", "v3")[:c["voters"]]]
+        acts += [{"k": "End"}, {"k": "Blocks", "n": 4}, {"k": "Begin", "dt": 1}]
     acts += [{"k": "End"}, {"k": "Blocks", "n": 2}]
     return {"id": "tot-%d" % i, "family": "totality", "cfg": cfg, "acts": acts}
 
@@ -1112,7 +1118,7 @@ def check_c05(prop, tier, seed, replay_file=None):
         if tier == "quick":
             random.Random(seed).shuffle(idx)
             # the pair cases (sums over several huge values) are few and always run
-            idx = sorted(set(idx[:900]) | {i for i in range(len(cases)) if cases[i]["t"] in ("Pair", "RPair")})
+            idx = sorted(set(idx[:900]) | {i for i in range(len(cases)) if cases[i]["t"] in ("Pair", "RPair", "OPrice")})
         scripts = [c05_script(i, cases[i], cfgs) for i in idx]
         scripts += load_static(["bulk*.ndjson", "c05*.ndjson", "attest*.ndjson", "econ*.ndjson", "fees*.ndjson"])
         # vote orders: conflicting claims, validators ahead / behind, powers changing (attest family), deposits and executions (econ)
